@@ -468,7 +468,10 @@ where
     let res_log_delta = a.log_delta().min(b.log_delta());
 
     let res_offset = (res_log_budget + res_log_delta).saturating_sub(res.max_k().as_usize());
-    let cnv_offset = a.effective_k().max(b.effective_k()) + res_offset;
+    // The product of a * 2^-a.log_budget and b * 2^-b.log_budget has to land on
+    // 2^-(min(log_budget) - max(log_delta)), i.e. be scaled by max(log_budget) + max(log_delta);
+    // this equals max(effective_k) only when the same operand holds both maxima.
+    let cnv_offset = a.log_budget().max(b.log_budget()) + a.log_delta().max(b.log_delta()) + res_offset;
 
     Ok((
         checked_log_budget_sub("mul", res_log_budget, res_offset)?,
